@@ -290,7 +290,8 @@ def r3_auto_remove(run, w):
     cfg = fn.cfg
     ps = fi.params()
     rep = {n.id for (n, c, nm) in fn.calls() if endswith(nm, "docmodel.setAutoRemove") and
-           nm.split(".")[0] == ps[1] and len(c.args) == 2 and text(c.args[0]) == ps[0]}
+           nm.split(".")[0] == ps[1] and len(H.norm(w, fn, c).args) == 2 and
+           H.canon(fn, H.norm(w, fn, c).args[0]) == ps[0]}
     if tname in AUTOREMOVE_PARTIAL:
       run.ob(R3, fi.qualname, "table.docmodel.setAutoRemove(rec, <cond>)",
              "named exception (%s): the formula reports for the records it covers"
@@ -402,30 +403,35 @@ def r3_auto_remove(run, w):
   n_calls = 0
   for (fn, cfg, calls) in units:
     fi = fn.fi
-    for (n, c, nm) in calls:
-      if not (isinstance(c.func, ast.Attribute) and c.func.attr == "apply_auto_removes"):
-        continue
-      n_calls += 1
-      # the call sits on a cycle of the CFG (it is repeated), and every way round that cycle
-      # recalculates before the set is consulted again
-      allrec = {m.id for (m, c2, nm2) in calls if nm2 == "self._bring_all_up_to_date"}
-      on_cycle = n.id in cfg.reach_after({n.id})
-      recalc = {r for r in allrec if r in cfg.reach_after({n.id}) and
-                n.id in cfg.reach_after({r})}
-      is_loop = on_cycle and bool(recalc) and \
-          n.id not in cfg.reach_after({n.id}, removed=recalc)
-      run.ob(R3, fi.qualname, "while ...apply_auto_removes(): self._bring_all_up_to_date()",
-             "auto-removals are applied round after round, recalculating in between (a removal can "
-             "make further records removable), until a round removes nothing", is_loop, fi=fi,
-             node=n.stmt)
-      pre = allrec - recalc
-      run.ob(R3, fi.qualname, "self._bring_all_up_to_date() before the first round",
-             "the setAutoRemove formulas have been evaluated when the set is first consulted",
-             bool(pre) and cfg.dominated_by(n.id, pre), fi=fi, node=n.stmt)
-      post = {m.id for (m, c2, nm2) in calls if endswith(nm2, "out_actions.flush_calc_changes")}
-      run.ob(R3, fi.qualname, "loop before out_actions.flush_calc_changes()",
-             "the removals are part of the bundle being returned",
-             bool(post) and all(cfg.dominated_by(p, {n.id}) for p in post), fi=fi, node=n.stmt)
+    A = {n.id for (n, c, nm) in calls if isinstance(c.func, ast.Attribute) and
+         c.func.attr == "apply_auto_removes"}
+    if not A:
+      continue
+    n_calls += len(A)
+    first = cfg.nodes[min(A)]
+    allrec = {m.id for (m, c2, nm2) in calls if nm2 == "self._bring_all_up_to_date"}
+    # rounds: a recalculation that follows a round is always followed by another round before
+    # the function goes on (so the rounds are repeated, with a recalculation in between, until a
+    # round reports that nothing was removed) -- however the loop is spelled
+    after = cfg.reach_after(A)
+    recalc = allrec & after
+    again = set()
+    for r in recalc:
+      again |= cfg.reach_after({r}, removed=A)
+    is_loop = bool(recalc) and cfg.exit.id not in again and \
+        all(A & cfg.reach_after({r}) for r in recalc)
+    run.ob(R3, fi.qualname, "while ...apply_auto_removes(): self._bring_all_up_to_date()",
+           "auto-removals are applied round after round, recalculating in between (a removal can "
+           "make further records removable), until a round removes nothing", is_loop, fi=fi,
+           node=first.stmt)
+    run.ob(R3, fi.qualname, "self._bring_all_up_to_date() before the first round",
+           "the setAutoRemove formulas have been evaluated when the set is first consulted",
+           bool(allrec) and all(cfg.dominated_by(a_, allrec) for a_ in A), fi=fi, node=first.stmt)
+    post = {m.id for (m, c2, nm2) in calls if endswith(nm2, "out_actions.flush_calc_changes")}
+    run.ob(R3, fi.qualname, "loop before out_actions.flush_calc_changes()",
+           "the removals are part of the bundle being returned",
+           bool(post) and all(cfg.dominated_by(p, A) and not (A & cfg.reach_after({p}))
+                              for p in post), fi=fi, node=first.stmt)
   if n_calls == 0:
     raise AnalysisError("apply_auto_removes is never called")
 
@@ -562,6 +568,10 @@ VARIANTS = [(a, b, c, d, "C09-R1") for (a, b, c, d) in R1_VARIANTS] + [
    "C09-R3"),
   ("auto-removes-always-report-true", DM,
    "    return bool(gone_records)", "    return True if self._auto_remove_set else False", "C09-R3"),
+  ("set-auto-remove-verdict-inverted", DM,
+   "    if yes_or_no:\n      self._auto_remove_set.add(record)\n    else:\n      self._auto_remove_set.discard(record)",
+   "    if not yes_or_no:\n      self._auto_remove_set.add(record)\n    else:\n      self._auto_remove_set.discard(record)",
+   "C09-R3"),
   ("set-auto-remove-never-unmarks", DM,
    "    else:\n      self._auto_remove_set.discard(record)", "    else:\n      pass", "C09-R3"),
   # R4
